@@ -272,6 +272,44 @@ theorem trackedRequestClaimsCheck_needs_mark (env : TransM.Env) (s : TransM.JWTT
     cases ha : env.verifyAudience_JWTTrackedRequestClaims claims s.Audience true <;>
       cases hi : env.verifyIssuer_JWTTrackedRequestClaims claims s.Issuer true <;> simp [ha, hi, hm]
 
+/-- C16 (`samlsp/session_jwt.go` `JWTSessionCodec.Decode` from `if err != nil {` on): a session comes out of the codec only if the
+    JWT library reported no error for the token (signature, algorithm, time window: the library's part), its audience and issuer
+    checks passed for *this* codec's audience and issuer, and the token carries the session mark — a request-tracking token of the
+    same SP, which does not, is no session -/
+theorem sessionClaimsCheck_sound (env : TransM.Env) (c : TransM.JWTSessionCodec) (claims : TransM.JWTSessionClaims)
+    (err : GoError) (sess : TransM.Session)
+    (h : TransM.sessionClaimsCheck env c claims err = .ok (some sess, none)) :
+    err = none ∧ env.verifyAudience_JWTSessionClaims claims c.Audience true = true ∧
+    env.verifyIssuer_JWTSessionClaims claims c.Issuer true = true ∧ claims.SAMLSession = true := by
+  unfold TransM.sessionClaimsCheck at h
+  simp only [Outcome.pure_eq_ok] at h
+  cases err with
+  | some e => simp at h
+  | none =>
+    simp only [Option.isSome_none, Bool.false_eq_true, if_false] at h
+    cases ha : env.verifyAudience_JWTSessionClaims claims c.Audience true with
+    | false => simp [ha] at h
+    | true =>
+      cases hi : env.verifyIssuer_JWTSessionClaims claims c.Issuer true with
+      | false => simp [ha, hi] at h
+      | true =>
+        cases hm : claims.SAMLSession with
+        | false => simp [ha, hi, hm] at h
+        | true => exact ⟨rfl, rfl, rfl, rfl⟩
+
+/-- every refusal is an error with no session; every acceptance carries no error: never both, never neither -/
+theorem sessionClaimsCheck_total (env : TransM.Env) (c : TransM.JWTSessionCodec) (claims : TransM.JWTSessionClaims) (err : GoError) :
+    (∃ e, TransM.sessionClaimsCheck env c claims err = .ok (none, some e)) ∨
+    (∃ s, TransM.sessionClaimsCheck env c claims err = .ok (some s, none)) := by
+  unfold TransM.sessionClaimsCheck
+  simp only [Outcome.pure_eq_ok]
+  cases err with
+  | some e => exact Or.inl ⟨e, by simp⟩
+  | none =>
+    cases ha : env.verifyAudience_JWTSessionClaims claims c.Audience true <;>
+      cases hi : env.verifyIssuer_JWTSessionClaims claims c.Issuer true <;>
+      cases hm : claims.SAMLSession <;> simp [ha, hi, hm]
+
 theorem TransI_no_failures : TransI.transFailures = [] := by decide
 
 /-! non-vacuity -/
